@@ -36,6 +36,91 @@ fn build(n: usize, k: usize) -> (Rc<Node>, Option<Rc<Node>>) {
     (head, extra)
 }
 
+/// Resurrection at a pause of the cascade.  Whenever a pass stops - at the depth cap or at a node whose stamps look
+/// recent - the next node has count 0, is not DESTRUCTED and has exactly one pending destruction attempt: a
+/// `Weak::upgrade` may legitimately revive it.  The attempt, when it runs, must then leave the node (and everything
+/// behind it) alone until the new owner is gone; afterwards everything is still reclaimed exactly once.
+pub fn pause_upgrade(out: &mut Out, props: &mut u64, fails: &mut u64) {
+    for (n, residue) in [(2300usize, 0usize), (1100, 7), (2300, 12)] {
+        for _ in 0..6 {
+            round();
+        }
+        while epoch() % 16 != residue {
+            round();
+        }
+        let mut head: Rc<Node> = Rc::null();
+        let mut weaks: Vec<circ::Weak<Node>> = Vec::with_capacity(n);
+        {
+            let g = circ::cs();
+            for i in (1..=n).rev() {
+                let nd = Rc::new(node(i));
+                unsafe { nd.deref() }.next.store(head, SeqCst, &g);
+                weaks.push(nd.downgrade());
+                head = nd;
+            }
+        }
+        weaks.reverse(); // weaks[i] refers to the node at position i (0 = head)
+        round();
+        round();
+        DROPS.store(0, SeqCst);
+        drop(head);
+        let mut last = 0usize;
+        let mut rounds = 0usize;
+        let mut pauses = 0usize;
+        let mut cap_pauses = 0usize;
+        let mut bad: Option<String> = None;
+        while DROPS.load(SeqCst) < n && rounds < 4000 && bad.is_none() {
+            round();
+            rounds += 1;
+            let now = DROPS.load(SeqCst);
+            if now > last && now < n {
+                // a pass has just ended at node `now` (0-based): revive it
+                let pass = now - last;
+                last = now;
+                pauses += 1;
+                if pass == 1024 {
+                    cap_pauses += 1;
+                }
+                *props += 1;
+                match weaks[now].upgrade() {
+                    Some(rc) if !rc.is_null() => {
+                        for _ in 0..14 {
+                            round();
+                        }
+                        let d = DROPS.load(SeqCst);
+                        if d != now {
+                            bad = Some(format!("chain of {} (residue {}): after a pass of {} nodes the next node (position {}) was revived by Weak::upgrade, yet {} more nodes were destructed while the upgraded Rc owns it", n, residue, pass, now, d - now));
+                        }
+                        drop(rc);
+                    }
+                    _ => {
+                        // legitimate only if the node is already being destructed; then it must be gone soon
+                    }
+                }
+            }
+        }
+        for _ in 0..40 {
+            round();
+        }
+        *props += 1;
+        let d = DROPS.load(SeqCst);
+        if bad.is_none() && d != n {
+            bad = Some(format!("chain of {} (residue {}): {} nodes destructed after every owner was released ({} pauses with a revived node)", n, residue, d, pauses));
+        }
+        if let Some(b) = bad {
+            *fails += 1;
+            for pid in ["C01", "C05", "C07", "C04"] {
+                out.line(&format!("PROPFAIL {} {}", pid, b));
+            }
+        }
+        out.line(&format!("# pause-upgrade n={} residue={} pauses={} at_the_depth_cap={} rounds={}", n, residue, pauses, cap_pauses, rounds));
+        drop(weaks);
+        for _ in 0..8 {
+            round();
+        }
+    }
+}
+
 pub struct Outcome {
     pub passes: Vec<(usize, usize)>, // (epoch after the round, nodes destructed in that round)
     pub rounds: usize,
@@ -151,6 +236,7 @@ pub fn run(out_path: &str, seed: u64, thorough: bool) -> (u64, u64, u64) {
         }
     }
     age_grid(&mut out, &mut props, &mut fails);
+    pause_upgrade(&mut out, &mut props, &mut fails);
     let lines = out.finish();
     (lines, props, fails)
 }
